@@ -219,7 +219,7 @@ def structural(ctx, report):
                                                          for x in walk_no_nested(mloops[0]))
     inner_tests = [src(n.test) for n in walk_no_nested(mloops[0]) if isinstance(n, ast.If)] if mloops else []
     ok_t = all(re.fullmatch(rf"{re.escape(acc)}\[\w+\]|\w+", t) for t in inner_tests)
-    report.check(ok and ok_t, "R-MUSTRAISE", fn, "every start time with offenders contributes to the message",
+    report.recognise(ok and ok_t, "R-MUSTRAISE", fn, "every start time with offenders contributes to the message",
                  {"loops": [short(l) for l in mloops], "tests": inner_tests}, "3")
     report.not_decided.append("the line lengths themselves are produced by the decoder (C05/C16)")
 
